@@ -17,17 +17,24 @@ _scratch = None
 KEEP = bool(os.environ.get("VERIF_KEEP_SCRATCH"))
 
 
+import threading
+_scratch_lock = threading.Lock()
+
+
 def scratch():
-    """One scratch directory per invocation, outside /repo and /verif, removed on exit."""
+    """One scratch directory per invocation, outside /repo and /verif, removed on exit (thread-safe: the three back
+    ends of a check start concurrently)."""
     global _scratch
-    if _scratch is None:
-        base = os.environ.get("VERIF_SCRATCH_BASE", "/var/tmp")
-        os.makedirs(base, exist_ok=True)
-        _scratch = os.path.join(base, "volute-verif.%d" % os.getpid())
-        shutil.rmtree(_scratch, ignore_errors=True)
-        os.makedirs(_scratch)
-        if not KEEP:
-            atexit.register(lambda: shutil.rmtree(_scratch, ignore_errors=True))
+    with _scratch_lock:
+        if _scratch is None:
+            base = os.environ.get("VERIF_SCRATCH_BASE", "/var/tmp")
+            os.makedirs(base, exist_ok=True)
+            d = os.path.join(base, "volute-verif.%d" % os.getpid())
+            shutil.rmtree(d, ignore_errors=True)
+            os.makedirs(d, exist_ok=True)
+            if not KEEP:
+                atexit.register(lambda: shutil.rmtree(d, ignore_errors=True))
+            _scratch = d
     return _scratch
 
 
